@@ -2,6 +2,7 @@ import GoBT.Driver.C01
 import GoBT.Driver.Sighash
 import GoBT.Driver.C13
 import GoBT.Driver.C14
+import GoBT.Driver.Fee
 open GoBT GoBT.Driver
 
 def dispatch (op : String) (args : List String) (impl : String) : Answer :=
@@ -22,6 +23,10 @@ def dispatch (op : String) (args : List String) (impl : String) : Answer :=
   | "C13.hexjson" => c13HexJson args impl
   | "C13.minpush" => c13MinPush args impl
   | "C14.inspect" => c14Inspect args impl
+  | "C11.fee" => c11Fee args impl
+  | "C11.signed" => c11Signed args impl
+  | "C10.change" => c10Change args impl
+  | "C12.fund" => c12Fund args impl
   | _ => ("unknown-op", "n/a")
 
 partial def loop (h : IO.FS.Stream) (out : IO.FS.Stream) : IO Unit := do
